@@ -4,6 +4,7 @@ package c16
 import (
 	"context"
 	"encoding/binary"
+	"encoding/hex"
 	"errors"
 	"fmt"
 	"os"
@@ -359,4 +360,34 @@ func replCase(r *vk.Run, replica *store.ImmuStore, ctx context.Context, in []byt
 	r.Case(fmt.Sprintf("CRepl %s %s %s %s", vk.Hex(in), vk.Bool(p), vk.Bool(err != nil), vk.Bool(changed)),
 		map[string]any{"kind": "repl", "in": fmt.Sprintf("%x", in), "panic": p, "err": errStr(err), "changed": changed},
 		"repl/"+bucket, len(in) > 4)
+}
+
+// Replay re-runs one recorded case on the implementation.
+func Replay(r *vk.Run, c map[string]any) error {
+	in, err := hex.DecodeString(c["in"].(string))
+	if err != nil {
+		return err
+	}
+	switch c["kind"] {
+	case "txmd":
+		caseTxMd(r, in, "replay")
+	case "kvmd":
+		caseKvMd(r, in, "replay")
+	case "hdr":
+		caseHdr(r, in, "replay")
+	case "repl":
+		dir, err := os.MkdirTemp("", "vh-c16-replay")
+		if err != nil {
+			return err
+		}
+		defer os.RemoveAll(dir)
+		st, err := store.Open(dir, store.DefaultOptions().WithSynced(false).
+			WithLogger(logger.NewSimpleLoggerWithLevel("vh", io.Discard, logger.LogError)))
+		if err != nil {
+			return err
+		}
+		defer st.Close()
+		replCase(r, st, context.Background(), in, "replay")
+	}
+	return nil
 }
